@@ -1558,7 +1558,7 @@ def token_number(s_, integer=False):
         raise ValueError(t)
     if integer:
         return sp.Integer(int(t))
-    return sp.Rational(t) if "e" not in t.lower() and "inf" not in t.lower() and "nan" not in t.lower() else sp.nsimplify(sp.Rational(*float_ratio(t)))
+    return sp.Rational(t) if "e" not in t.lower() and "inf" not in t.lower() and "nan" not in t.lower() else sp.Rational(*float_ratio(t))
 
 
 def float_ratio(t):
